@@ -526,46 +526,6 @@ func genLimits(g *core.Gen, r *core.Rand, keys []keyT) []caseSpec {
 	return out
 }
 
-func minInt(a, b int) int {
-	if a < b {
-		return a
-	}
-	return b
-}
-
-// fixLen pads a script made of "<push> DROP" groups with NOPs (or cuts it) to exactly n bytes.
-func fixLen(sc []byte, n int) []byte {
-	// rebuild: keep whole groups while they fit, then fill with single-byte NOPs
-	var out []byte
-	t := txscript.MakeScriptTokenizer(0, sc)
-	prev := int32(0)
-	for t.Next() {
-		if int(t.ByteIndex()) > n {
-			break
-		}
-		out = append(out, sc[prev:t.ByteIndex()]...)
-		prev = t.ByteIndex()
-	}
-	// make sure pushes are balanced by drops: count
-	depth := 0
-	t2 := txscript.MakeScriptTokenizer(0, out)
-	for t2.Next() {
-		if t2.Opcode() <= 0x4e {
-			depth++
-		} else if t2.Opcode() == 0x75 {
-			depth--
-		}
-	}
-	for depth > 0 && len(out) < n {
-		out = append(out, 0x75)
-		depth--
-	}
-	for len(out) < n {
-		out = append(out, 0x61)
-	}
-	return out
-}
-
 // ---- signature programs
 
 type sigPlan struct {
